@@ -104,6 +104,9 @@ func (ex *Exec) intrinsic(g *G, f *Frame, fn *ssa.Function, args []Value, call *
 	if v, ok := ex.serialIntrinsic(n, fn, args); ok {
 		return v, false
 	}
+	if v, ok := ex.calendarIntrinsic(n, args); ok {
+		return v, false
+	}
 	switch n {
 	case "math.Abs":
 		return ex.fabs(args[0].(Flt)), false
@@ -396,6 +399,12 @@ type syncState struct {
 	lockq    []*G
 	doneEvs  []*Event
 	unlockEv *Event
+	// RWMutex: readers holding the lock, goroutines waiting for a read lock, and the
+	// read-unlock events since the last write lock (a writer is ordered after them;
+	// readers are not ordered among themselves)
+	readers    int
+	rlockq     []*G
+	runlockEvs []*Event
 }
 
 func (ex *Exec) syncOf(p *Value) *syncState {
@@ -454,11 +463,39 @@ func (ex *Exec) syncOp(g *G, n string, args []Value) (Value, bool) {
 		g.status = gBlocked
 		g.waitWhat = "WaitGroup.Wait"
 		return nil, true
+	case strings.HasSuffix(n, ").RLock"):
+		if s.locked || len(s.lockq) > 0 {
+			// a writer holds the lock or waits for it (writers are not starved)
+			s.rlockq = append(s.rlockq, g)
+			g.status = gBlocked
+			g.waitWhat = "RWMutex.RLock"
+			return nil, true
+		}
+		s.readers++
+		ev := ex.newEvent(g, "rlock", nil, p)
+		ex.addEdge(s.unlockEv, ev)
+		ex.lockOrder = append(ex.lockOrder, ev)
+		return nil, false
+	case strings.HasSuffix(n, ").RUnlock"):
+		if s.readers == 0 {
+			panic(goPanic{"sync: RUnlock of unlocked RWMutex"})
+		}
+		s.readers--
+		ev := ex.newEvent(g, "runlock", nil, p)
+		s.runlockEvs = append(s.runlockEvs, ev)
+		if s.readers == 0 && len(s.lockq) > 0 {
+			ex.grantWriter(s, p)
+		}
+		return nil, false
 	case strings.HasSuffix(n, "Lock") && !strings.HasSuffix(n, "Unlock"):
-		if !s.locked {
+		if !s.locked && s.readers == 0 {
 			s.locked = true
 			ev := ex.newEvent(g, "lock", nil, p)
 			ex.addEdge(s.unlockEv, ev)
+			for _, r := range s.runlockEvs {
+				ex.addEdge(r, ev)
+			}
+			s.runlockEvs = nil
 			ex.lockOrder = append(ex.lockOrder, ev)
 			return nil, false
 		}
@@ -473,18 +510,38 @@ func (ex *Exec) syncOp(g *G, n string, args []Value) (Value, bool) {
 		ev := ex.newEvent(g, "unlock", nil, p)
 		s.unlockEv = ev
 		s.locked = false
-		if len(s.lockq) > 0 {
-			w := s.lockq[0]
-			s.lockq = s.lockq[1:]
-			s.locked = true
-			lev := ex.newEvent(w, "lock", nil, p)
-			ex.addEdge(ev, lev)
-			ex.lockOrder = append(ex.lockOrder, lev)
-			ex.top(w).pc++
-			ex.wake(w)
+		if len(s.rlockq) > 0 {
+			// waiting readers go first after a writer (as sync.RWMutex does)
+			for _, w := range s.rlockq {
+				s.readers++
+				rev := ex.newEvent(w, "rlock", nil, p)
+				ex.addEdge(ev, rev)
+				ex.lockOrder = append(ex.lockOrder, rev)
+				ex.top(w).pc++
+				ex.wake(w)
+			}
+			s.rlockq = nil
+		} else if len(s.lockq) > 0 {
+			ex.grantWriter(s, p)
 		}
 		return nil, false
 	}
+}
+
+// grantWriter hands the (free) lock to the first waiting writer.
+func (ex *Exec) grantWriter(s *syncState, p *Value) {
+	w := s.lockq[0]
+	s.lockq = s.lockq[1:]
+	s.locked = true
+	lev := ex.newEvent(w, "lock", nil, p)
+	ex.addEdge(s.unlockEv, lev)
+	for _, r := range s.runlockEvs {
+		ex.addEdge(r, lev)
+	}
+	s.runlockEvs = nil
+	ex.lockOrder = append(ex.lockOrder, lev)
+	ex.top(w).pc++
+	ex.wake(w)
 }
 
 // ---- vrt: the harness runtime ----
